@@ -188,6 +188,16 @@ func OpenRangeEqual(vm *Thread, x *value.OpenRange, y *value.OpenRange) (bool, v
 
 // Get the next element of the range
 func OpenRangeIteratorNext(vm *Thread, i *value.OpenRangeIterator) (value.Value, value.Value) {
+	// there is nothing left above the current element, it must not be incremented:
+	// the maximum of a fixed-width integer type would wrap around
+	done, err := GreaterThanEqual(vm, i.CurrentElement, i.Range.End)
+	if !err.IsUndefined() {
+		return value.Undefined, err
+	}
+	if value.Truthy(done) {
+		return value.Undefined, stopIterationSymbol.ToValue()
+	}
+
 	// i.CurrentElement++
 	next, err := Increment(vm, i.CurrentElement)
 	if !err.IsUndefined() {
